@@ -54,3 +54,14 @@ func init() {
 		[]string{"uint32 fields (masks/sizes) are not part of the 'other fields unchanged' comparison: the accessor is supposed to update its mask word"},
 		[]floor{{">=2-accessors", 0.2, ""}}, gOpts{})
 }
+
+func init() {
+	specs["C12"] = genSpec(
+		"For every item of the generated registries (repository schemas cases, goldmaster, schema in thorough, plus the harness' kitchen-sink schema) the interpreter's kernel is compiled from the same .tl files as cmd/tl2client does and three kinds of byte strings are fed to both sides in TL1 bare, TL1 boxed and TL2: bytes written by generated code from harness-generated values, bytes written by the interpreter from its own Random values, and mutated encodings. Verdicts must agree, both must consume the same length, and both re-encodings must be identical (TL2 with optimizeEmpty=false) and, for unmutated sources, equal to the input. Types the interpreter does not implement (CreateValue panics / no instance) are counted and skipped. Both sides under comparison are /repo code, so a defect common to both is invisible here (C11 covers that).",
+		"property-based testing (rapid): differential check of two implementations on generated values and mutated byte strings",
+		"non-trivial iff the input has >= 8 bytes and both accepted, or >= 4 bytes and both rejected; distinct by (schema set, item, format, source, value seed, edits)",
+		[]string{"the interpreter is driven as cmd/tl2client and the repository's goldmaster stress test drive it (natArgs nil for top-level items, TL2 optimizeEmpty=false)"},
+		[]floor{{"both-rejected", 0.10, ""}, {"source-interpreter", 0.10, ""}},
+		gOpts{},
+	)
+}
